@@ -219,6 +219,8 @@ fn circle_line(with_extras: bool, concrete_sound: Option<i32>, template: &'stati
 
 // @verif property=C14,C06,C01 tier=quick timeout=1500 mem=20 bounds="circle line '$a,$b,$c,$d,6' (hit sound 6 = whistle+finish): x,y every f32 / error, time every f64 / error, type every i32 with the circle flag / error; arbitrary predecessor (none or any i32 type)" covers=5
 oracle_proof!(c14_circle_sound6, 32, circle_line(false, Some(6), "$a,$b,$c,$d,6"));
+// @verif property=C14,C01 tier=quick timeout=1500 mem=20 bounds="circle line '$a,$b,$c,$d,16' (hit sound 16: no addition flags, normal flag absent -> the implicit normal sample is layered)" covers=5
+oracle_proof!(c14_circle_sound16, 32, circle_line(false, Some(16), "$a,$b,$c,$d,16"));
 // @verif property=C14 tier=thorough timeout=3000 mem=24 bounds="circle line '$a,$b,$c,$d,$e': as above with the hit sound every i32 / error" covers=6
 oracle_proof!(c14_circle_plain, 32, circle_line(false, None, "$a,$b,$c,$d,$e"));
 // @verif property=C14 tier=thorough timeout=3400 mem=28 bounds="circle line with extras '$a,$b,$c,$d,$e,$f:$g:$h:$i:' (banks, custom index, volume every i32 / error)" covers=6
